@@ -76,10 +76,8 @@ class Translator:
         """translate node as a non-optional value; raises NeedUnwrap for an Optional name."""
         t, ty = self.expr(node, env)
         if ty in OPT:
-            if isinstance(node, ast.Name):
-                raise NeedUnwrap(node.id)
-            if isinstance(node, ast.Attribute) and isinstance(node.value, ast.Name) and node.value.id == 'self':
-                raise NeedUnwrap('self.' + node.attr)
+            if is_dotted(node):
+                raise NeedUnwrap(src(node))
             raise TranslationError(f"Optional expression used as a value: {src(node)}")
         if want is not None:
             t = self.coerce(t, ty, want)
@@ -99,7 +97,7 @@ class Translator:
         t, ty = self.expr(node, env)
         if ty == 'bool':
             return t
-        if ty == 'list':
+        if ty.startswith('list'):
             return f"(negb (zlen {t} =? 0))"
         if ty == 'Z':
             return f"(negb ({t} =? 0))"
@@ -114,10 +112,8 @@ class Translator:
         if isinstance(node, ast.Compare) and len(node.ops) == 1 and isinstance(node.ops[0], (ast.Is, ast.IsNot)) \
                 and isinstance(node.comparators[0], ast.Constant) and node.comparators[0].value is None:
             left = node.left
-            if isinstance(left, ast.Name):
-                return left.id, isinstance(node.ops[0], ast.IsNot)
-            if isinstance(left, ast.Attribute) and isinstance(left.value, ast.Name) and left.value.id == 'self':
-                return 'self.' + left.attr, isinstance(node.ops[0], ast.IsNot)
+            if is_dotted(left):
+                return src(left), isinstance(node.ops[0], ast.IsNot)
             raise TranslationError(f"`is None` on a non-name: {src(node)}")
         return None
 
@@ -166,8 +162,8 @@ class Translator:
         if isinstance(node, ast.Name):
             return env.get(node.id)
         if isinstance(node, ast.Attribute):
-            if isinstance(node.value, ast.Name) and node.value.id == 'self':
-                return env.get('self.' + node.attr)
+            if not is_dotted(node):
+                raise TranslationError(f"attribute of a non-name: {src(node)}")
             return env.get(src(node))
         if isinstance(node, ast.BoolOp):
             return self.boolop(node, env), 'bool'
@@ -276,7 +272,7 @@ class Translator:
             raise TranslationError(f"keyword arguments are not in the subset: {src(node)}")
         if f == 'len' and len(node.args) == 1:
             t, ty = self.value(node.args[0], env)
-            if ty != 'list':
+            if not ty.startswith('list'):
                 raise TranslationError(f"len of a {ty}: {src(node)}")
             return f"(zlen {t})", 'Z'
         if f in ('max', 'min') and len(node.args) == 2:
@@ -428,15 +424,20 @@ _counter = [0]
 
 
 def fresh(key):
-    base = key.replace('self.', 'self_').replace('.', '_')
-    return base   # shadowing is intended: the unwrapped value takes the Python name
+    return key.replace('.', '_')   # shadowing is intended: the unwrapped value takes the Python name
+
+
+def is_dotted(node):
+    while isinstance(node, ast.Attribute):
+        node = node.value
+    return isinstance(node, ast.Name)
 
 
 def target_key(t):
     if isinstance(t, ast.Name):
         return t.id, t.id
-    if isinstance(t, ast.Attribute) and isinstance(t.value, ast.Name) and t.value.id == 'self':
-        return 'self.' + t.attr, 'self_' + t.attr
+    if isinstance(t, ast.Attribute) and is_dotted(t):
+        return src(t), src(t).replace('.', '_')
     raise TranslationError(f"assignment target not in subset: {src(t)}")
 
 
